@@ -190,3 +190,87 @@ Proof.
     rewrite X. reflexivity. }
   intros bytes Hb. apply (ok_hash_inj A OK). exact Hb.
 Qed.
+
+(* ---------- a concrete adapter: tables for the named constants, base-257 coding otherwise ---------- *)
+Fixpoint code (s : string) : N :=
+  match s with
+  | EmptyString => 0
+  | String c s' => (N_of_ascii c + 1) + 257 * code s'
+  end.
+
+Lemma code_inj : inj code.
+Proof.
+  intros s. induction s as [|c s IH]; intros [|c' t] H; cbn [code] in H.
+  - reflexivity.
+  - exfalso. lia.
+  - exfalso. lia.
+  - pose proof (N_ascii_bounded c) as B1. pose proof (N_ascii_bounded c') as B2.
+    assert (N_of_ascii c = N_of_ascii c' /\ code s = code t) as [E1 E2] by lia.
+    f_equal; [|apply IH; exact E2].
+    rewrite <- (ascii_N_embedding c), <- (ascii_N_embedding c'). now rewrite E1.
+Qed.
+
+Fixpoint tfind (s : string) (t : list (string * N)) : option N :=
+  match t with
+  | [] => None
+  | (k, n) :: t' => if String.eqb s k then Some n else tfind s t'
+  end.
+
+Definition intern (t : list (string * N)) (base : N) (s : string) : N :=
+  match tfind s t with Some n => n | None => base + code s end.
+
+Lemma tfind_in : forall s t n, tfind s t = Some n -> In (s, n) t.
+Proof.
+  induction t as [|[k m] t IH]; cbn; [discriminate|]. intros n.
+  destruct (String.eqb s k) eqn:E.
+  - apply String.eqb_eq in E. subst. intros H; inversion H. left; reflexivity.
+  - intros H. right. auto.
+Qed.
+
+Lemma snd_nodup_key : forall (t : list (string * N)) s s' n,
+  NoDup (map snd t) -> In (s, n) t -> In (s', n) t -> s = s'.
+Proof.
+  induction t as [|[k m] t IH]; intros s s' n ND H1 H2; [destruct H1|].
+  cbn in ND. inversion ND as [|? ? Hn ND']; subst.
+  destruct H1 as [H1|H1], H2 as [H2|H2].
+  - congruence.
+  - inversion H1; subst. exfalso. apply Hn. apply in_map_iff. exists (s', n). auto.
+  - inversion H2; subst. exfalso. apply Hn. apply in_map_iff. exists (s, n). auto.
+  - eapply IH; eauto.
+Qed.
+
+Lemma intern_inj : forall t base,
+  (forall k n, In (k, n) t -> n < base) -> NoDup (map snd t) -> inj (intern t base).
+Proof.
+  intros t base Hb ND x y H. unfold intern in H.
+  destruct (tfind x t) as [n|] eqn:Fx, (tfind y t) as [m|] eqn:Fy.
+  - subst m. eapply snd_nodup_key; eauto using tfind_in.
+  - apply tfind_in in Fx. apply Hb in Fx. lia.
+  - apply tfind_in in Fy. apply Hb in Fy. lia.
+  - apply code_inj. lia.
+Qed.
+
+Definition mt_table : list (string * N) :=
+  [ (EmptyString, MT_NONE); (s_image, MT_IMAGE); (s_artifact, MT_ARTIFACT); (s_index, MT_INDEX);
+    (s_dman, MT_DMAN); (s_dlist, MT_DLIST); (s_notation, MT_NOTATION); (s_octet, MT_OCTET) ].
+
+Definition std_adapter : adapter :=
+  mk_adapter (intern mt_table 8)
+             (intern [(EmptyString, 0); (s_dg_empty, DG_EMPTY)] 2)
+             (intern [(M11.k_created, K_CREATED)] 2)
+             (intern [("{}"%string, DG_EMPTY)] 2).
+
+Ltac table_bound :=
+  let k := fresh in let n := fresh in let H := fresh in
+  intros k n H; cbn in H;
+  repeat (destruct H as [H|H]; [inversion H; subst; reflexivity|]); destruct H.
+
+Ltac table_nodup :=
+  cbn; repeat (constructor; [cbn; intros H; repeat (destruct H as [H|H]; [discriminate H|]); exact H|]);
+  constructor.
+
+Lemma std_adapter_ok : adapter_ok std_adapter.
+Proof.
+  constructor; try reflexivity; cbn [a_mt a_dg a_str a_hash std_adapter];
+    apply intern_inj; try table_bound; table_nodup.
+Qed.
